@@ -34,7 +34,7 @@ DUR_RE = re.compile(r"^-?\d+(\.\d{3}|\.\d{6}|\.\d{9})?s$")
 
 def plan(tier, seed):
     n = 4000 if tier == "quick" else 130000
-    return [{"seed": seed * 313 + i, "n": n} for i in range(16)]
+    return [{"seed": seed * 313 + i, "n": n} for i in range(16)] + [{"kind": "w0"}]
 
 
 def gen_ts(rng):
@@ -96,6 +96,10 @@ def du_class(s, n):
 
 
 def run_shard(shard) -> Result:
+    if shard.get("kind") == "w0":
+        from ..w0 import run_w0
+
+        return run_w0(PROP, CONTRACTS)
     res = Result()
     rng = random.Random(f"c15-{shard['seed']}")
     try:
@@ -292,6 +296,10 @@ def check_du(b, res: Result, s, n, pos):
 
 
 def replay(w):
+    if w.get("kind") == "w0":
+        from ..w0 import run_w0
+
+        return run_w0(PROP, CONTRACTS).violations
     res = Result()
     b = corpus.build_item({"kind": "matrix"})
     try:
